@@ -12,14 +12,20 @@ def tiers(tier, quick, thorough):
     return quick if tier == "quick" else thorough
 
 
-def proj_sel(tomo):
-    """testers whose outcome probabilities sum to a constant (projective Pauli measurements / pure Pauli eigenstates): the library's
-    normalisation of predicted distributions is then a division by a constant"""
-    return {"qst": dict(povms=[0, 1, 2]), "povmt": dict(states=[0, 1, 2, 3])}[tomo]
+def proj_sel(tomo, testers="pauli"):
+    """tester sets.  pauli: projective Pauli measurements / pure Pauli eigenstates.  mixed: an unbalanced measurement
+    (elements diag(0.8,0.1), diag(0.2,0.9) of unequal trace) resp. a mixed input state among them, so that the constant parts of the
+    predicted distributions differ between schedules."""
+    if testers == "pauli":
+        return {"qst": dict(povms=[0, 1, 2]), "povmt": dict(states=[0, 1, 2, 3])}[tomo]
+    return {"qst": dict(povms=[0, 6, 1]), "povmt": dict(states=[4, 1, 2, 3])}[tomo]
+
+
+TESTERS = {"v": "pauli"}
 
 
 def setup(tomo, m, flag):
-    sel = proj_sel(tomo)
+    sel = proj_sel(tomo, TESTERS["v"])
     qt, tmpl = tomo_lib.build(tomo, "Q1", m=m, flag=flag, sel=sel)
     sched = c08.default_schedules(tomo, sel)
     return qt, tmpl, sel, sched
@@ -71,7 +77,7 @@ def true_probs(tomo, m, flag, x, sched, sel):
     return c08.born_reference(tomo, "Q1", m, flag, x, sched, sel)
 
 
-def ob_cov(tomo, m, flag, N):
+def ob_cov(tomo, m, flag, N, testers="pauli"):
     """covariance of the empirical distributions: calc_covariance_mat_single == (diag(p) - p p^T)/N == exact covariance of k/N under the
     multinomial law (complete enumeration of the count vectors), calc_covariance_mat_total == their direct sum,
     calc_mse_empi_dists_analytical == sum_j E|k_j/N - p_j|^2"""
@@ -79,11 +85,13 @@ def ob_cov(tomo, m, flag, N):
     nf = n_free(tomo, m)
 
     def assume(I):
+        TESTERS["v"] = testers
         qt, tmpl, sel, sched = setup(tomo, m, flag)
         ps = true_probs(tomo, m, flag, full_var(tomo, m, flag, vec_of(I, "x", nf)), sched, sel)
         return [SBool.of(p >= PMIN) for pj in ps for p in pj]
 
     def run(I):
+        TESTERS["v"] = testers
         qt, tmpl, sel, sched = setup(tomo, m, flag)
         x = full_var(tomo, m, flag, vec_of(I, "x", nf))
         obj = tmpl.generate_from_var(x)
@@ -105,6 +113,10 @@ def ob_cov(tomo, m, flag, N):
                 for a in range(k):
                     for b in range(k):
                         enum[a, b] = enum[a, b] + w * (kv[a] / Ns[j] - pj[a]) * (kv[b] / Ns[j] - pj[b])
+            if os.environ.get("C19_DBG"):
+                for a in range(k):
+                    for b in range(k):
+                        print("D", j, a, b, Sym.of(cov[a, b]) - Sym.of(ref[a, b]), "|E|", Sym.of(cov[a, b]) - Sym.of(enum[a, b]), file=sys.stderr)
             out.append(Eq(f"schedule {j}: covariance == (diag p - p p^T)/N", cov, ref, 1e-8))
             out.append(Eq(f"schedule {j}: covariance == exact multinomial covariance (enumeration)", cov, enum, 1e-7))
             blocks.append(cov)
@@ -114,27 +126,34 @@ def ob_cov(tomo, m, flag, N):
         pos = 0
         for j, blk in enumerate(blocks):
             k = blk.shape[0]
-            out.append(Eq(f"total covariance: block {j}", total[pos:pos + k, pos:pos + k], blk, 0.0))
+            out.append(Eq(f"total covariance: block {j}", total[pos:pos + k, pos:pos + k], blk, 1e-12))
             pos += k
         out.append(Holds("total covariance size", total.shape == (pos, pos)))
         out.append(Eq("calc_mse_empi_dists_analytical == sum_j E|k_j/N_j - p_j|^2", qt.calc_mse_empi_dists_analytical(obj, Ns), tot_mse, 1e-7))
+        if os.environ.get("C19_DBG"):
+            for c_ in out:
+                if isinstance(c_, Eq):
+                    ds = c_.diffs()
+                    print("CLAIM", c_.label, [float(core.poly_absbound(d_)) if d_.t else 0 for d_ in (ds or [])][:6], file=sys.stderr)
         return out
     return FnOb(reals("x", nf, -1.0, 1.0), run, assume=assume, eager_ite=True, max_paths=20, expect_nonlinear=True)
 
 
-def ob_mse_linear(tomo, m, flag, N, mode):
+def ob_mse_linear(tomo, m, flag, N, mode, testers="pauli"):
     """calc_mse_linear_analytical(mode) == E |estimate - truth|^2, the expectation taken exactly over all multinomial outcomes with the
     estimate computed by the REAL LinearEstimator on each concrete data set k/N (truth symbolic)"""
     nv = c03.n_var(TOMO_TYPE[tomo], 2, m, flag)
     nf = n_free(tomo, m)
 
     def assume(I):
+        TESTERS["v"] = testers
         qt, tmpl, sel, sched = setup(tomo, m, flag)
         ps = true_probs(tomo, m, flag, full_var(tomo, m, flag, vec_of(I, "x", nf)), sched, sel)
         return [SBool.of(p >= PMIN) for pj in ps for p in pj]
 
     def run(I):
         from quara.protocol.qtomography.standard.linear_estimator import LinearEstimator
+        TESTERS["v"] = testers
         qt, tmpl, sel, sched = setup(tomo, m, flag)
         x = full_var(tomo, m, flag, vec_of(I, "x", nf))
         obj = tmpl.generate_from_var(x)
@@ -168,17 +187,19 @@ def ob_mse_linear(tomo, m, flag, N, mode):
     return FnOb(reals("x", nf, -1.0, 1.0), run, assume=assume, eager_ite=True, max_paths=20, expect_nonlinear=True, explore_budget=900)
 
 
-def ob_fisher(tomo, m, flag):
+def ob_fisher(tomo, m, flag, testers="pauli"):
     """calc_fisher_matrix(j, x) == sum_outcomes (grad p)(grad p)^T / p ; total == weighted sum"""
     nv = c03.n_var(TOMO_TYPE[tomo], 2, m, flag)
     nf = n_free(tomo, m)
 
     def assume(I):
+        TESTERS["v"] = testers
         qt, tmpl, sel, sched = setup(tomo, m, flag)
         ps = true_probs(tomo, m, flag, full_var(tomo, m, flag, vec_of(I, "x", nf)), sched, sel)
         return [SBool.of(p >= PMIN) for pj in ps for p in pj]
 
     def run(I):
+        TESTERS["v"] = testers
         qt, tmpl, sel, sched = setup(tomo, m, flag)
         x = full_var(tomo, m, flag, vec_of(I, "x", nf))
         A = qt.calc_matA()
@@ -200,8 +221,7 @@ def ob_fisher(tomo, m, flag):
         if os.environ.get("C19_DBG"):
             for i, v in core.CTX.div_info.items():
                 print("Q", i, v, file=sys.stderr)
-        for qa, qb, f in core.near_quotients():
-            core.lemma(SBool.of(qa - qb * f <= 1e-8) & SBool.of(qa - qb * f >= -1e-8))
+        core.derive_near_quotient_facts(1e-8)
         for qa in core.div_atoms():
             core.lemma(SBool.of(qa <= 1e7) & SBool.of(qa >= -1e7))
         out.append(Eq("total Fisher matrix == weighted sum", qt.calc_fisher_matrix_total(x, wts), tot, 1e-5))
@@ -209,12 +229,13 @@ def ob_fisher(tomo, m, flag):
     return FnOb(reals("x", nf, -1.0, 1.0), run, assume=assume, eager_ite=True, max_paths=20, expect_nonlinear=True)
 
 
-def ob_crb(tomo, m, flag):
+def ob_crb(tomo, m, flag, testers="pauli"):
     """Cramer-Rao bound at a concrete physical point with a SYMBOLIC representative N: equals the textbook Tr[(sum_j N_j F_j)^-1]
     (+ the implied-element term for constrained POVM tomography) for every N, i.e. does not depend on N"""
     nv = c03.n_var(TOMO_TYPE[tomo], 2, m, flag)
 
     def run(I):
+        TESTERS["v"] = testers
         qt, tmpl, sel, sched = setup(tomo, m, flag)
         N = I["N"]
         # a physical interior point
@@ -292,6 +313,13 @@ def obligations(tier):
             out += specs("C19.fisher", [{"tomo": tomo, "m": m, "flag": flag}], ob_fisher, 4)
             out += specs("C19.crb", [{"tomo": tomo, "m": m, "flag": flag}], ob_crb, 6)
     out += specs("C19.mse_linear", [{"tomo": "povmt", "m": 3, "flag": True, "N": 1, "mode": "qoperation"}], ob_mse_linear, 20)
+    # unbalanced testers: the constant part of the predicted distributions differs between schedules
+    for tomo, m in [("qst", 0), ("povmt", 2)]:
+        for flag in (True, False):
+            out += specs("C19.fisher", [{"tomo": tomo, "m": m, "flag": flag, "testers": "mixed"}], ob_fisher, 4)
+            out += specs("C19.crb", [{"tomo": tomo, "m": m, "flag": flag, "testers": "mixed"}], ob_crb, 6)
+            out += specs("C19.cov", [{"tomo": tomo, "m": m, "flag": flag, "N": 2, "testers": "mixed"}], ob_cov, 3)
+            out += specs("C19.mse_linear", [{"tomo": tomo, "m": m, "flag": flag, "N": 1, "mode": md, "testers": "mixed"} for md in ("var", "qoperation")], ob_mse_linear, 10)
     out += specs("C19.helpers", [{"n": n} for n in (2, 3)], ob_helpers, 1)
     return out
 
